@@ -166,6 +166,22 @@ ADDENDA = {
          "Superseded: the carrier laws are no longer assumed for the soft-float."),
  "C20": ("Added: tessellator / subsample / snapper control flow regenerated (translator_c10).", ""),
 }
+ADDENDA2 = {
+ "C04": "Later: edge clipping regenerated and proved equal to the build model (translator_c04).",
+ "C05": "Later: Cell / CellUnion region predicates tied to the region values of the end-to-end theorems, float region predicates pinned (translator_c07).",
+ "C06": "Later: I1 proved without MergeComplete, I3 and 'queries on the built index = brute force' proved under three named statements of exact geometry (C06_BuildI3.lean); "
+        "index construction and padded cells regenerated (translator_c04); defect D52 (shape-id sentinel after Remove) found and repaired; the check also runs the containment paths.",
+ "C07": "Later: the relation walk and the polygon relations regenerated as step equations of the model (translator_c07, 357 ties).",
+ "C09": "Later: all 33 decoder functions regenerated as Dec-monad programs and proved EQUAL to the model decoders of the round-trip theorems (translator_c15b).",
+ "C10": "Later: bound functions tied / pinned (translator_c07).",
+ "C12": "Later: the repaired margin 2*dblEpsilon of Cell.ContainsPoint is PROVED sufficient for every float point and every ancestor (C12_Margin.lean; exactly tight in the proof, 1.25 attained).",
+ "C13": "Later: target objects with their inner state are in the model (C13_Targets.lean), target methods regenerated; footprint obligation for iterator creation sites.",
+ "C14": "Later: the footprint of the Go code is a regenerated decidable obligation linked to the proved protocol model (C14_Footprint.lean).",
+ "C15": "Later: the IR guards are tied to the regenerated model decoders (C15_Decode).",
+ "C16": "Later: after repair D50 bit identity in all 8 argument orders is PROVED as stated for every in-contract input (C16_Canonical.lean).",
+}
+for _k, _t in ADDENDA2.items():
+    ADDENDA[_k] = (ADDENDA[_k][0] + " " + _t, ADDENDA[_k][1]) if _k in ADDENDA else (_t, "")
 for _k, (_t, _n) in ADDENDA.items():
     LEVELS[_k]["text"] = LEVELS[_k]["text"] + " SESSION 3 — " + _t
     if _n:
